@@ -94,9 +94,12 @@ def shape_edges(shape):
     return k, k + len(internals), edges, height
 
 
-def ts_from_shape(shape, muts, perm=None, L=1000.0):
+def ts_from_shape(shape, muts, perm=None, L=1000.0, root_muts=0, stacked=0):
     """tskit tree sequence of a shape.  `muts[i]` = number of mutations on the i-th edge of
-    `shape_edges(shape)`.  `perm` optionally renumbers the internal nodes (a permutation of them)."""
+    `shape_edges(shape)`.  `perm` optionally renumbers the internal nodes (a permutation of them).
+    `root_muts` extra sites carry one mutation *above the root* (mutation.edge == NULL: on no edge);
+    `stacked` extra sites carry two mutations: one above the root and one on the first edge (several
+    mutations per site; only the second lies on an edge)."""
     import tskit
     k, n, edges, height = shape_edges(shape)
     ids = list(range(n))
@@ -116,10 +119,79 @@ def ts_from_shape(shape, muts, perm=None, L=1000.0):
             s = tables.sites.add_row(position=float(pos), ancestral_state="0")
             tables.mutations.add_row(site=s, node=ids[c], derived_state="1")
             pos += 1
+    root = ids[n - 1]          # post-order numbering: the root is the last internal node
+    for _ in range(int(root_muts)):
+        s = tables.sites.add_row(position=float(pos), ancestral_state="0")
+        tables.mutations.add_row(site=s, node=root, derived_state="1")
+        pos += 1
+    for _ in range(int(stacked)):
+        s = tables.sites.add_row(position=float(pos), ancestral_state="0")
+        tables.mutations.add_row(site=s, node=root, derived_state="1")
+        tables.mutations.add_row(site=s, node=ids[edges[0][1]], derived_state="2")
+        pos += 1
     tables.sort()
     tables.build_index()
     tables.compute_mutation_parents()
     return tables.tree_sequence()
+
+
+# ----------------------------------------------------------------------------- mutation counts per edge
+
+def mut_edges_independent(ts):
+    """Number of mutations on each edge, counted from the trees (not from mutation.edge): a mutation lies on
+    the edge (parent(node), node) of the tree at its site; a mutation above a root lies on NO edge."""
+    import tskit
+    counts = np.zeros(ts.num_edges, dtype=np.int64)
+    el, er, ep, ec = ts.edges_left, ts.edges_right, ts.edges_parent, ts.edges_child
+    for tree in ts.trees():
+        for site in tree.sites():
+            x = site.position
+            for m in site.mutations:
+                par = tree.parent(m.node)
+                if par == tskit.NULL:
+                    continue
+                hit = np.where((ec == m.node) & (ep == par) & (el <= x) & (x < er))[0]
+                assert hit.size == 1, (m.node, par, x)
+                counts[hit[0]] += 1
+    return counts
+
+
+def encode_mutedges(cid, ts):
+    from fractions import Fraction as Fr
+    def q(x):
+        f = Fr(float(x))
+        return f"{f.numerator}/{f.denominator}"
+    lines = [f"case {cid}", "op mutedges", f"nedges {ts.num_edges}",
+             "sedges " + " ".join(f"{e.id} {q(e.left)} {q(e.right)} {e.parent} {e.child}" for e in ts.edges()),
+             "muts " + " ".join(f"{m.node} {q(ts.site(m.site).position)}" for m in ts.mutations()), "end"]
+    return "\n".join(lines) + "\n"
+
+
+def mutedges_text(tss):
+    return "".join(encode_mutedges(EXTRA_BASE + i, ts) for i, ts in enumerate(tss))
+
+
+def mutedges_correspondence(tss, lines_by_id=None):
+    """For every tree sequence: Likelihoods.get_mut_edges (implementation) vs the Lean model `mutEdges`
+    (which recomputes mutation.edge from the edge table) vs the independent count from the trees.
+    Returns list of (index, impl, model, independent) for every disagreement."""
+    from tsdate.discrete import Likelihoods
+    if not tss:
+        return []
+    if lines_by_id is None:
+        lines_by_id = {}
+        run_model([], mutedges_text(tss), lines_by_id)
+    model = {}
+    for k, ln in lines_by_id.items():
+        parts = ln.split()
+        model[k - EXTRA_BASE] = None if parts[1:] == ["bad-op"] else [int(x) for x in parts[1:]]
+    bad = []
+    for i, ts in enumerate(tss):
+        impl = [int(x) for x in Likelihoods.get_mut_edges(ts)]
+        ind = [int(x) for x in mut_edges_independent(ts)]
+        if model.get(i) != impl or ind != impl:
+            bad.append((i, impl, model.get(i), ind))
+    return bad
 
 
 # ----------------------------------------------------------------------------- priors
@@ -277,16 +349,26 @@ def decode(line, r, carrier):
     return out
 
 
-def run_model(cases):
-    """cases: list of (impl_result, carrier).  Returns list of decoded outputs (None = bad-op)."""
-    if not cases:
+EXTRA_BASE = 10 ** 6      # ids of extra blocks (other driver operations) sharing one driver invocation
+
+
+def run_model(cases, extra_text="", extra_out=None):
+    """cases: list of (impl_result, carrier).  Returns list of decoded outputs (None = bad-op).
+    `extra_text`: further blocks (ids >= EXTRA_BASE) run in the same driver process; their raw reply lines are
+    stored in `extra_out[id]`."""
+    if not cases and not extra_text:
         return []
-    text = "".join(encode(i, r, carrier) for i, (r, carrier) in enumerate(cases))
+    text = "".join(encode(i, r, carrier) for i, (r, carrier) in enumerate(cases)) + extra_text
     lines = common.lean_driver("Discrete", text)
     by_id = {}
     for ln in lines:
         if ln.strip():
-            by_id[int(ln.split()[0])] = ln
+            k = int(ln.split()[0])
+            if k >= EXTRA_BASE:
+                if extra_out is not None:
+                    extra_out[k] = ln
+            else:
+                by_id[k] = ln
     return [decode(by_id[i], r, carrier) if i in by_id else None for i, (r, carrier) in enumerate(cases)]
 
 
@@ -363,10 +445,7 @@ def brute_force(ts, prior_rows, timepoints, mu, eps):
     G = len(timepoints)
     fixed = set(int(s) for s in ts.samples())
     nonfixed = [u for u in range(ts.num_nodes) if u not in fixed]
-    muts = np.zeros(ts.num_edges, dtype=int)
-    for m in ts.mutations():
-        if m.edge != -1:
-            muts[m.edge] += 1
+    muts = mut_edges_independent(ts)      # counted from the trees; root mutations lie on no edge
     edges = [(int(e.parent), int(e.child), int(muts[e.id]), float(e.span)) for e in ts.edges()]
     # per-edge table L[e][a][b] for parent index a, child index b
     tabs = []
